@@ -227,12 +227,11 @@ func appliedEvents(cau chain.ApplyUpdate, walletAddress types.Address) (events [
 		fce := fced.V2FileContractElement.Move()
 
 		_, missed := fced.Resolution.(*types.V2FileContractExpiration)
-		if fce.V2FileContract.HostOutput.Address == walletAddress {
-			outputID := fce.ID.V2HostOutputID()
-			sce, ok := siacoinElements[outputID]
-			if !ok {
-				panic("missing siacoin element")
-			}
+		// the payouts of a resolution pay the addresses of the outputs it
+		// creates; for a renewal those are the renewal's final outputs, which
+		// need not name the addresses of the contract's own outputs
+		outputID := fce.ID.V2HostOutputID()
+		if sce, ok := siacoinElements[outputID]; ok && sce.SiacoinOutput.Address == walletAddress {
 
 			addEvent(types.Hash256(outputID), EventTypeV2ContractResolution, EventV2ContractResolution{
 				Resolution: types.V2FileContractResolution{
@@ -244,12 +243,8 @@ func appliedEvents(cau chain.ApplyUpdate, walletAddress types.Address) (events [
 			}, sce.MaturityHeight)
 		}
 
-		if fce.V2FileContract.RenterOutput.Address == walletAddress {
-			outputID := fce.ID.V2RenterOutputID()
-			sce, ok := siacoinElements[outputID]
-			if !ok {
-				panic("missing siacoin element")
-			}
+		outputID = fce.ID.V2RenterOutputID()
+		if sce, ok := siacoinElements[outputID]; ok && sce.SiacoinOutput.Address == walletAddress {
 
 			addEvent(types.Hash256(outputID), EventTypeV2ContractResolution, EventV2ContractResolution{
 				Resolution: types.V2FileContractResolution{
